@@ -4,7 +4,8 @@ import modelpins
 PINS = {
     "CxxParser._parse_type": "479fd876a38d253006e9daf2",
     "CxxParser._parse_enumerator_list": "85df09e027374eac870f2718",
-    "CxxParser._parse_fn_end": "2601686e4a4a7c02480cd596",
+    "CxxParser._parse_fn_end": "68a034fac27fde2a7dc38a86",
+    "CxxParser._parse_fn_requires": "d7d48953efc4a35df5ae9600",
     "CxxParser._parse_template_decl": "f46e0092f86b7aa94d87a1c8",
     "CxxParser._parse_template_type_parameter": "e51bf6a8c1cac0e0240197dd",
     "ParsedTypeModifiers.validate": "8ec39aba017329b5f75b6f68",
